@@ -121,6 +121,12 @@ namespace lang
     inline void replace_all(std::string& str, const std::string& to_replace,
                             const std::string& replacement)
     {
+        if (to_replace.empty())
+        {
+            // an empty pattern matches at every position, forever; there is nothing to replace
+            return;
+        }
+
         size_t start_pos = 0;
         while ((start_pos = str.find(to_replace, start_pos)) != std::string::npos)
         {
